@@ -6,6 +6,7 @@ fail=0
 for d in seeded/*${1}*/; do
   n=$(basename $d)
   prop=$(python3 -c "import json;print(json.load(open('$d/meta.json'))['breaks_property'])")
+  if python3 -c "import json,sys;sys.exit(0 if json.load(open('$d/meta.json')).get('outside_property') else 1)"; then echo "$n: skipped (recorded as outside the property's quantifier)"; continue; fi
   git -C /repo apply /verif/$d/patch.diff 2>/dev/null || { echo "$n: PATCH NO LONGER APPLIES"; fail=1; continue; }
   s=$(date +%s); ./check $prop quick >/dev/null 2>&1; rc=$?; e=$(date +%s)
   git -C /repo checkout -- .
